@@ -77,6 +77,7 @@ pub fn case_from_value(v: &Value) -> Result<SeqCase, CaseResult> {
         nontrivial: false,
         classes: vec![],
         excluded: vec![],
+            counters: vec![],
     })
 }
 
